@@ -94,7 +94,8 @@ func vpC14_O1() {
 
 	d := vpBig("d")
 	vpAssume(d.Sign() != 0)
-	dev := vpChoose("deviation", 8)
+	dev := vpChoose("deviation", 9)
+	serverKeys := keys
 	in := respReq.UserChallengeInput
 	switch dev {
 	case 1:
@@ -118,12 +119,20 @@ func vpC14_O1() {
 		in[0].KeyID = &unknown
 	case 6:
 		in[0].KeyID = nil // pretend the first key does not take part
+	case 8: // the second message is what was committed to, but the server does not (any longer) know the first key
+		vpAssume(in[0].KeyID != nil)
+		serverKeys = map[string]*gabikeys.PublicKey{}
+		for id, k := range keys {
+			if id != *in[0].KeyID {
+				serverKeys[id] = k
+			}
+		}
 	case 7: // the first entry is re-labelled with another key the server knows
 		vpAssume(keys[pks[1].Issuer] != nil)
 		otherID := pks[1].Issuer
 		in[0].KeyID = &otherID
 	}
-	proofP, err := KeyshareResponse(kssSecret, kssRandomizer, commReq, respReq, keys)
+	proofP, err := KeyshareResponse(kssSecret, kssRandomizer, commReq, respReq, serverKeys)
 	if dev != 0 {
 		vpAssert("server refuses a second message that differs from the commitment", err != nil && proofP == nil)
 		return
